@@ -126,7 +126,9 @@ func raceCmd(t *rapid.T) []string {
 		case 2, 3:
 			cmd = []string{"EVAL", incr, "0", key, id}
 		case 4:
-			cmd = []string{"EVALNA", twoWrites, "0", key, id}
+			// (never behind TIMEOUT here: the history sub-check owns that
+			// shape, whose failure mode is a hang)
+			return []string{"EVALNA", twoWrites, "0", key, id}
 		default:
 			cmd = []string{"EVALRO", read, "0", key}
 		}
